@@ -339,3 +339,125 @@ def c19_cli_roundtrip(tier, seed):
     for f in [l for l in r.stdout.splitlines() if l.startswith("FAIL")][:3]:
         out["failures"].append({"what": "dump + replace did not reproduce the model (or a malformed record was accepted)", "detail": f[:2000]})
     return out
+
+
+# ---------------------------------------------------------------------------------------------------------------------
+# the example programs (examples/wasm: C16; examples/embedded_device: C14), compiled verbatim by harness-examples
+
+EX_DIR = os.path.join(ROOT, "harness-examples")
+
+
+def _ex_target(kind):
+    return os.path.join(ROOT, "target", "ex-wasm" if kind == "WA" else "ex-embedded")
+
+
+def _build_example(kind):
+    cmd = ["cargo", "build", "--release", "--offline", "--target-dir", _ex_target(kind)] + (["--features", "wasm"] if kind == "WA" else [])
+    return subprocess.run(cmd, cwd=EX_DIR, capture_output=True, text=True, env=ENV)
+
+
+def build_examples():
+    for kind in ("WA", "EB"):
+        b = _build_example(kind)
+        if b.returncode != 0:
+            print(b.stderr[-3000:])
+            return 2
+    return 0
+
+
+def _split_session(case):
+    """a WA/EB case as (kind, model, [items], [clusters] or None)"""
+    t = case.split(" ")
+    items = [] if t[2] == "-" else t[2].split(",")
+    cl = None
+    if t[0] == "WA":
+        cl = [] if t[3] == "-" else t[3].split("/")
+    return t[0], t[1], items, cl
+
+
+def _join_session(kind, model, items, cl):
+    s = f"{kind} {model} {','.join(items) if items else '-'}"
+    if kind == "WA":
+        s += " " + ("/".join(cl) if cl else "-")
+    return s
+
+
+def _examples_step(kind, tier, seed):
+    name = "example_wasm_worker" if kind == "WA" else "example_embedded_device"
+    what = ("examples/wasm/src/lib.rs: the `impl Worker for VaporettoWorker` block, extracted from the working tree and compiled verbatim "
+            "against stand-ins for gloo-worker/ouroboros with the example's vaporetto features"
+            if kind == "WA" else
+            "examples/embedded_device/build.rs, included verbatim and compiled with the example's feature set (`alloc` only), followed by the loop body of src/main.rs")
+    out = {"name": name, "evaluations": 0, "failures": [], "suspicions": [], "stats": {}}
+    b = _build_example(kind)
+    if b.returncode != 0:
+        out["suspicions"].append(f"{what}: does not compile any more, so the example is no longer shown to agree with the library pipeline: " + b.stderr[-600:])
+        return out
+    exe = os.path.join(_ex_target(kind), "release", "vexamples")
+    g = subprocess.run([HARNESS, "gen", kind, tier, str(seed)], capture_output=True, text=True, env=ENV)
+    if g.returncode != 0:
+        out["failures"].append({"what": "generator failed", "stderr": g.stderr[-500:]})
+        return out
+    cases = g.stdout.splitlines()
+
+    def run3(cs):
+        data = "".join(c + "\n" for c in cs)
+        impl = subprocess.run([exe], input=data, capture_output=True, text=True).stdout.splitlines()
+        impl = [l.split(" ")[0] for l in impl]          # EB: the serialised predictor follows the answers
+        orc = subprocess.run([HARNESS, "run"], input=data, capture_output=True, text=True, env=ENV).stdout.splitlines()
+        mod = subprocess.run([DRIVER], input=data, capture_output=True, text=True).stdout.splitlines()
+        return impl, orc, mod
+
+    impl, orc, mod = run3(cases)
+    out["evaluations"] = len(cases)
+    if len(impl) != len(cases) or len(orc) != len(cases) or len(mod) != len(cases):
+        out["failures"].append({"what": f"{name}: a run did not answer every case (example {len(impl)}, library {len(orc)}, model {len(mod)} of {len(cases)})"})
+        return out
+    n_items = sum(len(_split_session(c)[2]) for c in cases)
+    out["stats"] = {"sessions": len(cases), "messages": n_items, "panics": sum(o.count("panic") for o in impl)}
+
+    def shrink(case, differs):
+        """shortest session (prefix, then single items dropped) on which `differs` still holds"""
+        kind_, model, items, cl = _split_session(case)
+        cur = (items, cl)
+        changed = True
+        while changed and len(cur[0]) > 1:
+            changed = False
+            for i in range(len(cur[0])):
+                it = cur[0][:i] + cur[0][i + 1:]
+                c2 = None if cur[1] is None else cur[1][:i] + cur[1][i + 1:]
+                cand = _join_session(kind_, model, it, c2)
+                a, o, m = run3([cand])
+                if a and o and m and differs(a[0], o[0], m[0]):
+                    cur = (it, c2)
+                    changed = True
+                    break
+        return _join_session(kind_, model, cur[0], cur[1])
+
+    for i, c in enumerate(cases):
+        if impl[i] != orc[i]:
+            small = shrink(c, lambda a, o, m: a != o)
+            a, o, m = run3([small])
+            out["failures"].append({"what": f"the example program does not give what the library pipeline gives on fresh sentences ({what})",
+                                    "case": small[:4000], "example_program": a[0][:1500], "library_pipeline": o[0][:1500], "model": m[0][:1500]})
+            break
+    if not out["failures"]:
+        for i, c in enumerate(cases):
+            if impl[i] != mod[i]:
+                small = shrink(c, lambda a, o, m: a != m)
+                a, o, m = run3([small])
+                out["suspicions"].append(f"{name}: the example program differs from the Lean model ({'wasmSession' if kind == 'WA' else 'embeddedDevice'}) on case {small[:1500]}: example {a[0][:400]} model {m[0][:400]}")
+                break
+    out["distinct_nontrivial"] = len({c for c, o in zip(cases, impl) if "|" in o or "ok:" in o})
+    out["note"] = (f"{len(cases)} sessions / {n_items} texts through {what}; each answer compared with the library pipeline on fresh sentence objects (oracle) and with the Lean model")
+    return out
+
+
+def example_wasm(tier, seed):
+    """C16 ("boundaries predicted on normalised text apply to the original text") in the repository's browser example"""
+    return _examples_step("WA", tier, seed)
+
+
+def example_embedded(tier, seed):
+    """C14 in the repository's embedded example: the predictor serialised by build.rs, deserialised on the device"""
+    return _examples_step("EB", tier, seed)
